@@ -2,6 +2,7 @@
 from __future__ import annotations
 
 import itertools
+import re
 
 from . import core
 from .specs import Version, enc_spec, parse_version_specifier, smem
@@ -61,6 +62,11 @@ RP_QUICK = ["", ">=3.8", "<3.7", ">=2.7,<3", "==3.9.*", ">=3.6,!=3.8.*", "<3.0||
             ">3.12", "<=3.5.0", "~=3.7", ">=3.7.3,<3.9.3", "!=3.9.*", ">=2.7,!=3.0.*,!=3.1.*,!=3.2.*", "<2.0",
             # a single interpreter X.Y.0 / everything but it: the wheel's own lower bound must be inclusive (seed C08c)
             "<=3.9", "==3.9", "==3.9.0", ">=3.8,<=3.9", ">3.9", ">3.9.0,<3.10", "<=3.10.0,>3.9.7", "==2.7", "<3.9.1,>=3.9",
+            # a pre-release lower bound of the NEXT series: `[3.10.0a1, 3.10.0)` holds no final release, yet it is a non-empty
+            # interval inside the cp39 wheel's range (known finding G1c)
+            ">=3.10.0a1", ">=3.10.0rc1,<3.11",
+            # `~=` over an operand with a dotted suffix: the series is chosen on the release alone (seed C08f: textual rsplit)
+            "~=3.8.post1", "~=3.8.0.dev1", "~=3.9.0rc1", "~=3.8.1.post2",
             # the same pins as the LAST range of a union (seed C08e: quick reject against a union's outer bounds ignoring include_max)
             ">=2.7,!=3.0.*,!=3.1.*,<=3.8", "<3.0||==3.9", "!=3.7.*,<=3.12.0", "<=3.6||>=3.8,<=3.10", "!=3.9.*,>=3.8"]
 
@@ -112,7 +118,9 @@ def py_tags():
 
 
 def abi_tags_for(py):
-    out = ["none", "abi3", py, py + "m", py + "t", py + "d", py + "dm"]
+    # (own ABI with every flag combination incl. the free-threaded debug build `td`; and ABIs of OTHER interpreters that merely
+    # begin with the python tag: cp31 vs cp310, cp3 vs cp312 -- fixed defect D28, where the code and this oracle both said startswith)
+    out = ["none", "abi3", py, py + "m", py + "t", py + "d", py + "dm", py + "td", py + "0", py + "2t", py + "12"]
     if py.startswith("pp"):
         out += [f"pypy{py[2:]}_pp73", f"pypy{py[2:]}_pp75"]
     if py.startswith("pt"):
@@ -138,9 +146,11 @@ def loads(impl_s: str, py: str, abi: str, v: Version) -> bool:
             return False
         return v >= Version(f"{X}.{Y or 0}")
     if abi_n != "none":
-        if not abi_n.startswith(py.lower()):
+        import re
+        m = re.fullmatch(re.escape(py.lower()) + r"([a-z]*)", abi_n)     # the python tag followed by ABI flag letters only
+        if m is None:
             return False
-        if spec_impl is not None and abi_n.endswith("t") != nogil:
+        if spec_impl is not None and ("t" in m.group(1)) != nogil:
             return False
     if Y is None:
         return v.major == X
@@ -171,9 +181,12 @@ def run_c08(run: core.Run, n_rp: int) -> None:
                     got = out != "none" and not out.startswith("raise")
                     rep = {"op": "evalpy", "rp": rp_text, "impl": impl_s, "py": py, "abi": abi}
                     if out.startswith("raise") or got != want:
-                        run.fail(core.Failure(f"evalpy|{rp_text}|{impl_s}|{py}|{abi}",
-                                              f"requires_python {rp_text!r} impl {impl_s}: ({py},{abi}) reported {out}, "
-                                              f"rule says compatible={want}", rep))
+                        f = core.Failure(f"evalpy|{rp_text}|{impl_s}|{py}|{abi}",
+                                         f"requires_python {rp_text!r} impl {impl_s}: ({py},{abi}) reported {out}, "
+                                         f"rule says compatible={want}", rep)
+                        if got and not want and re.search(r"\d(a|b|rc|\.dev)\d", rp_text):
+                            f.family = "prerelease-bound-gap"    # known finding G1c (same root as G1: the order is not dense)
+                        run.fail(f)
                     elif got:
                         abi_n = abi.split("_", 1)[0].lower()
                         kind = 0 if abi_n == "none" else (1 if abi_n == "abi3" else 2)
@@ -307,8 +320,12 @@ def run_c09(run: core.Run) -> None:
                 f.family = "macos-10-arm64"
             run.fail(f)
     # platform score = position from the end, `any` last
-    for name in ["manylinux_2_28_x86_64", "macos_12_0_arm64", "musllinux_1_2_aarch64", "windows_amd64"]:
-        env = EnvSpec(parse_version_specifier(""), Platform.parse(name))
+    # (every platform of the grid: seed C09f rejected `win32` on windows_x86 only, through a prefix table in the scorer)
+    for name in platforms(run.tier):
+        try:
+            env = EnvSpec(parse_version_specifier(""), Platform.parse(name))
+        except Exception:  # noqa: BLE001  (names the tag stream already judges)
+            continue
         tags = [*Platform.parse(name).compatible_tags, "any"]
         for i, t in enumerate(tags):
             sc = env._evaluate_platform(t)
